@@ -24,6 +24,7 @@
 #include "internal.h"
 #include "signature_builder.h"
 #include "impl/signature_builder_impl.h"
+#include "impl/signature_impl.h"
 #include "net.h"
 #include "net_tcp.h"
 #include "net_http.h"
@@ -455,6 +456,15 @@ static int createExtendedSignature(const KSI_AsyncHandle *h, KSI_Signature **sig
 	if (res != KSI_OK) {
 		KSI_pushError(h->ctx, res, NULL);
 		goto cleanup;
+	}
+
+	/* Make sure, the new calendar hash chain is compatible with the old one. */
+	if (h->signature->calendarChain != NULL) {
+		res = KSI_CalendarHashChain_verifyCompatibilityTo(h->signature->calendarChain, extCalChain);
+		if (res != KSI_OK) {
+			KSI_pushError(h->ctx, res, "Incompatible calendar hash chain");
+			goto cleanup;
+		}
 	}
 
 	res = KSI_SignatureBuilder_applyCalendarHashChain(builder, extCalChain);
